@@ -149,7 +149,7 @@ Lemma value_delist g a i c p : nth_error (a_pos a) i = Some (c, p) -> pc_kind c 
   total_value g (astep g a (EDelist i true)) == total_value g a.
 Proof. intros H K. cbn [astep]. unfold on_entry. rewrite H. rewrite (total_value_set_entry g a i c p _ _ H).
   rewrite !stock_equity by assumption. unfold stock_delist, receivable.
-  destruct (qeq_b (p_qty p) 0) eqn:E; cbn [fst snd set_qty p_last p_qty p_recv]; [ring|qnorm; ring]. Qed.
+  destruct (qeq_b (p_qty p) 0) eqn:E; cbn [fst snd p_last p_qty p_recv]; [ring|qnorm; ring]. Qed.
 (* futures settlement: total value moves only by the distance between the settlement price and the last price *)
 Lemma value_settle g a i s c p : nth_error (a_pos a) i = Some (c, p) -> pc_kind c = FuturePos ->
   total_value g (astep g a (ESettleFut i s)) ==
